@@ -49,6 +49,10 @@ type Engine struct {
 	pool     []*interpreter
 	poolMu   sync.Mutex
 	Stubs    []string // redirects and intrinsics in force (for evidence)
+	// uninit: globals that a package initialiser would have set but whose package is on the
+	// deny list, so they still hold their zero value. Interpreted code touching one is an
+	// engine error (the alternative is silently wrong semantics).
+	uninit map[*ssa.Global]string
 	covMu    sync.Mutex
 	Cov      map[string]int64
 }
@@ -106,6 +110,25 @@ func NewEngine(prog *ssa.Program, cfg Config) (*Engine, error) {
 		return nil, fmt.Errorf("redirect targets not found: %v", missing)
 	}
 	sort.Strings(e.Stubs)
+	// globals left uninitialised by skipped package initialisers
+	e.uninit = map[*ssa.Global]string{}
+	for fn := range all {
+		if fn.Pkg == nil || e.initAllowed(fn.Pkg.Pkg.Path()) {
+			continue
+		}
+		if fn.Synthetic != "package initializer" && !strings.HasPrefix(fn.Name(), "init#") {
+			continue
+		}
+		for _, b := range fn.Blocks {
+			for _, in := range b.Instrs {
+				if st, ok := in.(*ssa.Store); ok {
+					if g, ok := st.Addr.(*ssa.Global); ok && g.Name() != "init$guard" {
+						e.uninit[g] = fn.Pkg.Pkg.Path()
+					}
+				}
+			}
+		}
+	}
 	// package initialisation order (dependencies first)
 	seen := map[*types.Package]bool{}
 	var visit func(p *types.Package)
